@@ -26,6 +26,7 @@ type tb struct {
 	ssub   map[ssa.Value]string // callee parameter -> slice/other term of the argument
 	depth  int
 	tables map[*ssa.Global]*constTable
+	ub     map[ssa.Value]int  // values known to be non-negative with at most this many significant bits (arguments of an inlined call)
 	small  map[ssa.Value]bool // values known to be small non-negative integers (loop counters with constant bounds)
 }
 
@@ -72,6 +73,12 @@ func (t *tb) inline(c *ssa.Call, idx int, asSlice bool) (string, aff, bool) {
 		}
 		if isIntegerType(a.Type()) {
 			child.subst[p] = t.term(a)
+			if n := t.ubits(a); n < 64 {
+				if child.ub == nil {
+					child.ub = map[ssa.Value]int{}
+				}
+				child.ub[p] = n
+			}
 		} else if b, ok := a.Type().Underlying().(*types.Basic); ok && b.Info()&types.IsBoolean != 0 {
 			if n, ok := t.names[a]; ok {
 				child.ssub[p] = n
@@ -126,6 +133,9 @@ func intBits(t types.Type) (int, bool, bool) { // bits, unsigned, ok
 func (t *tb) ubits(v ssa.Value) int {
 	if t.small[v] {
 		return 31
+	}
+	if n, ok := t.ub[v]; ok {
+		return n
 	}
 	if t.res != nil {
 		if k, ok := t.res.constOf(v); ok {
